@@ -12,16 +12,37 @@ set_option linter.unusedVariables false
 /-! ### add_junction / add_tank / add_reservoir -/
 
 def addJunctionR (s : Reg) (n : Name) (p : Option Name) : Reg :=
-  bumpUid (setNode (addUsage? s .pattern p (n, .junction)) n ⟨.junction, p, none, s.nextUid⟩)
+  bumpUid (setNode (addUsage? s .pattern p (n, .junction)) n ⟨.junction, none, none, [(p, false)], s.nextUid⟩)
 
-theorem addJunction_cases (s : Reg) (n : Name) (p : Option Name) :
-    addJunction repaired s n p = (s, .error) ∨
-    (AL.get? s.nodes n = none ∧ addJunction repaired s n p = (addJunctionR s n p, .ok)) := by
+theorem addJunction_cases (s : Reg) (n : Name) (p : Option Name) (obj : Bool) :
+    addJunction repaired s n p obj = (s, .error) ∨
+    (AL.get? s.nodes n = none ∧ addJunction repaired s n p obj = (addJunctionR s n p, .ok)) := by
   unfold addJunction addJunctionR
   cases h : AL.get? s.nodes n <;> simp [h]
 
+theorem addLeak_frame (s : Reg) (n : Name) (a b : Bool) :
+    (addLeak s n a b).1.nodes = s.nodes ∧ (addLeak s n a b).1.links = s.links ∧ (addLeak s n a b).1.patterns = s.patterns ∧
+    (addLeak s n a b).1.curves = s.curves ∧ (addLeak s n a b).1.sources = s.sources ∧ (addLeak s n a b).1.usage = s.usage ∧
+    (addLeak s n a b).1.typed = s.typed := by
+  unfold addLeak
+  split
+  · exact ⟨rfl, rfl, rfl, rfl, rfl, rfl, rfl⟩
+  · split <;> exact ⟨rfl, rfl, rfl, rfl, rfl, rfl, rfl⟩
+
+theorem removeLeak_cases (s : Reg) (n : Name) :
+    removeLeak s n = (s, .error) ∨
+    removeLeak s n = ({ s with controls := AL.del (AL.del s.controls (leakCtl n true)) (leakCtl n false) }, .ok) := by
+  unfold removeLeak
+  cases AL.get? s.nodes n with
+  | none => exact Or.inl rfl
+  | some i =>
+    simp only
+    split
+    · exact Or.inl rfl
+    · exact Or.inr rfl
+
 def addTankR (s : Reg) (n : Name) (c : Option Name) : Reg :=
-  bumpUid (setNode (addUsage? s .curve c (n, .tank)) n ⟨.tank, none, c, s.nextUid⟩)
+  bumpUid (setNode (addUsage? s .curve c (n, .tank)) n ⟨.tank, none, c, [], s.nextUid⟩)
 
 theorem addTank_cases (s : Reg) (n : Name) (c : Option Name) :
     addTank repaired s n c = (s, .error) ∨
@@ -35,7 +56,7 @@ theorem addTank_cases (s : Reg) (n : Name) (c : Option Name) :
   · simp [h]
 
 def addReservoirR (s : Reg) (n : Name) (p : Option Name) : Reg :=
-  bumpUid (setNode (addUsage? s .pattern p (n, .reservoir)) n ⟨.reservoir, p, none, s.nextUid⟩)
+  bumpUid (setNode (addUsage? s .pattern p (n, .reservoir)) n ⟨.reservoir, p, none, [], s.nextUid⟩)
 
 theorem addReservoir_cases (s : Reg) (n : Name) (p : Option Name) :
     addReservoir repaired s n p = (s, .error) ∨
@@ -172,18 +193,22 @@ theorem updateControl_cases (s : Reg) (n : Name) (ns ls : List Name) :
 
 /-! ### remove_node / remove_link -/
 
-/-- `NodeRegistry.__delitem__` of the repaired code after the in-use test, as straight-line code -/
+/-- `NodeRegistry.__delitem__` of the repaired code after the in-use test, as straight-line code: a junction is released from
+every pattern record, a reservoir from its head pattern, a tank from its volume curve -/
 def delNodeR (s : Reg) (key : Name) (i : NodeInfo) : Reg :=
   removeUsageO
     (removeUsageO
-      (typedDiscardAll { (popUsageKey s .node key) with nodes := AL.del s.nodes key } nodeSets key)
-      .pattern (if i.kind = .tank then none else i.pat) (key, if i.kind = .junction then .junction else .reservoir))
+      (removeUserAllO
+        (typedDiscardAll { (popUsageKey s .node key) with nodes := AL.del s.nodes key } nodeSets key)
+        .pattern (if i.kind = .junction then some (key, .junction) else none))
+      .pattern (if i.kind = .reservoir then i.pat else none) (key, .reservoir))
     .curve (if i.kind = .tank then i.curve else none) (key, .tank)
 
 theorem delNode_repaired (s : Reg) (key : Name) (i : NodeInfo) : delNode repaired s key i = delNodeR s key i := by
   unfold delNode delNodeR
   cases hk : i.kind <;>
-    simp only [repaired_delPatternReg, if_true, tryStep_removeUsageO, id, reduceCtorEq, if_false, removeUsageO, popUsageKey_nodes]
+    simp only [repaired_delPatternReg, repaired_delNodeSweeps, if_true, tryStep_removeUsageO, id, reduceCtorEq, if_false,
+      removeUsageO, removeUserAllO, popUsageKey_nodes]
 
 theorem removeNode_cases (s : Reg) (n : Name) (wc force : Bool) :
     (AL.get? s.nodes n = none ∧ removeNode repaired s n wc force = (s, .error)) ∨
@@ -280,6 +305,101 @@ theorem removeSource_cases (s : Reg) (n : Name) :
     refine Or.inr ⟨si, rfl, ?_⟩
     simp only [removeUsageO_repaired, removeUsage_repaired, tryStep_fun_some, id,
       removeUsageT_sources, removeUsageO_sources]
+
+/-! ### the demand list of a junction -/
+
+def addDemandR (s : Reg) (n : Name) (p : Option Name) (i : NodeInfo) : Reg :=
+  { (addUsage? s .pattern p (n, .junction)) with
+    nodes := AL.set s.nodes n { i with demands := i.demands ++ [(p, false)] } }
+
+theorem addDemand_cases (s : Reg) (n : Name) (p : Option Name) (obj : Bool) :
+    addDemand repaired s n p obj = (s, .error) ∨
+    (∃ i, AL.get? s.nodes n = some i ∧ i.kind = .junction ∧ addDemand repaired s n p obj = (addDemandR s n p i, .ok)) := by
+  unfold addDemand addDemandR
+  cases h : AL.get? s.nodes n with
+  | none => exact Or.inl rfl
+  | some i =>
+    by_cases hk : i.kind = .junction
+    · exact Or.inr ⟨i, rfl, hk, by simp [hk]⟩
+    · simp [hk]
+
+def delDemandR (s : Reg) (n : Name) (idx : Nat) (i : NodeInfo) : Reg :=
+  { s with nodes := AL.set s.nodes n { i with demands := i.demands.eraseIdx idx } }
+
+theorem delDemand_cases (s : Reg) (n : Name) (idx : Nat) :
+    delDemand s n idx = (s, .error) ∨
+    (∃ i, AL.get? s.nodes n = some i ∧ i.kind = .junction ∧ delDemand s n idx = (delDemandR s n idx i, .ok)) := by
+  unfold delDemand delDemandR
+  cases h : AL.get? s.nodes n with
+  | none => exact Or.inl rfl
+  | some i =>
+    by_cases hk : i.kind = .junction
+    · by_cases hl : idx ≥ i.demands.length
+      · simp [hk, hl]
+      · exact Or.inr ⟨i, rfl, hk, by simp [hk, hl]⟩
+    · simp [hk]
+
+def addFireR (s : Reg) (n p : Name) (i : NodeInfo) : Reg :=
+  { (addUsage { s with patterns := s.patterns ++ [p] } .pattern p (n, .junction)) with
+    nodes := AL.set s.nodes n { i with demands := i.demands ++ [(some p, true)] } }
+
+theorem addFire_cases (s : Reg) (n p : Name) :
+    addFire s n p = (s, .error) ∨
+    (∃ i, AL.get? s.nodes n = some i ∧ i.kind = .junction ∧ p ∉ s.patterns ∧ addFire s n p = (addFireR s n p i, .ok)) := by
+  unfold addFire addFireR
+  cases h : AL.get? s.nodes n with
+  | none => exact Or.inl rfl
+  | some i =>
+    by_cases hk : i.kind = .junction
+    · by_cases hf : hasFire i = true
+      · simp [hk, hf]
+      · by_cases hp : p ∈ s.patterns
+        · simp [hk, hf, hp]
+        · exact Or.inr ⟨i, rfl, hk, hp, by simp [hk, hf, hp]⟩
+    · simp [hk]
+
+/-- `remove_fire_fighting_demand` of the repaired code before it looks at the pattern: the 'Fire_Flow' entries go, the usage
+record goes unless another entry of the junction still names the pattern -/
+def removeFireR (s : Reg) (n p : Name) (i : NodeInfo) : Reg :=
+  { (removeUsageO s .pattern
+      (if (i.demands.filter (fun d => !d.2)).any (fun d => d.1 = some p) = true then none else some p) (n, .junction)) with
+    nodes := AL.set s.nodes n { i with demands := i.demands.filter (fun d => !d.2) } }
+
+theorem fireDrop_repaired (s : Reg) (n p : Name) (i : NodeInfo) : fireDrop repaired s n p i = removeFireR s n p i := by
+  unfold fireDrop removeFireR
+  simp only [repaired_fireKeepsShared, Bool.true_and]
+  by_cases h : (i.demands.filter (fun d => !d.2)).any (fun d => decide (d.1 = some p)) = true
+  · simp only [h, if_true, removeUsageO]
+  · simp only [h, if_false, removeUsageO, Bool.false_eq_true, removeUsageT_nodes]
+
+theorem removeFire_cases (s : Reg) (n : Name) :
+    removeFire repaired s n = (s, .error) ∨ removeFire repaired s n = (s, .ok) ∨
+    (∃ i p, AL.get? s.nodes n = some i ∧ i.kind = .junction ∧
+      (removeFire repaired s n = (removeFireR s n p i, .ok) ∨
+       ((∀ u, u ∉ ulook ((removeFireR s n p i).usage .pattern) p) ∧
+        removeFire repaired s n = (removePatternR (removeFireR s n p i) p, .ok)))) := by
+  unfold removeFire
+  cases h : AL.get? s.nodes n with
+  | none => exact Or.inl rfl
+  | some i =>
+    by_cases hk : i.kind = .junction
+    · cases hf : firePat i with
+      | none => exact Or.inr (Or.inl (by simp [hk, hf]))
+      | some p =>
+        refine Or.inr (Or.inr ⟨i, p, rfl, hk, ?_⟩)
+        simp only [hk, hf, ne_eq, not_true_eq_false, if_false, fireDrop_repaired, repaired_fireKeepsShared, if_true]
+        rcases removePattern_cases (removeFireR s n p i) p with e | ⟨hu, e⟩
+        · left
+          have : inUse (removeFireR s n p i) .pattern p = true := by
+            unfold removePattern at e
+            by_contra hc
+            simp only [Bool.not_eq_true] at hc
+            simp [hc] at e
+          simp [this]
+        · right
+          have : inUse (removeFireR s n p i) .pattern p = false := (inUse_false _ _ _).2 hu
+          exact ⟨hu, by simp [this, e]⟩
+    · simp [hk]
 
 theorem removeControl_cases (s : Reg) (n : Name) :
     removeControl s n = (s, .error) ∨ removeControl s n = ({ s with controls := AL.del s.controls n }, .ok) := by
